@@ -25,7 +25,6 @@ from props.common import *
 
 PID = "C10"
 SIG = "not-nested-last"   # signature of the (repaired) known finding (known_findings.json)
-SIG_QLAG = "hist-age-queued-action"   # history ages stand still in a tick that performs a queued action
 
 # text of the leaves of the leaf triples of MC_Switch.tla (text level; the agreement with the
 # TLA+ records is itself checked: parser(text) must equal Compile(record))
@@ -342,8 +341,9 @@ def e2e_family():
     sw("notnested", [("(and (not (or a b)) (layer l1))", [OP("and", OP("not", OP("or", K("a"), K("b"))), LY(1))], True),
                      ("", [], True)])
 
-    # the known finding hist-age-queued-action, deterministically: the first press fires 2 and 3 from the action
-    # queue; 2's press is then the 2nd most recent key press and its age is one tick short ever after
+    # regression for the repaired finding hist-age-queued-action (b96326a): the first press fires 2 and 3 from the
+    # action queue; before the repair the history did not age on those ticks, so 2's press (then the 2nd most
+    # recent key press) looked one tick younger than it was ever after
     sw("qlag", [("(key-timing 2 gt 50)", [TL(2, "gt", 50)], True), ("", [], False), ("", [], True)])
 
     def fork(name, kbd_keys, trig_names, extra_keys, top=""):
@@ -900,30 +900,8 @@ def run(tier, seed):
     nlines, errs = validate_trace("P_C10", trace, wd)
     n_press = sum(1 for j in e2e_jobs for s in j["scripts"] for st in s if st[0] == "d" and st[1] == j["params"]["sk"])
     e2e_known = 0
-    # rejections of key-timing switches are judged a second time by the monitor variant that models the known
-    # finding hist-age-queued-action (params.qlag); the ones it accepts are explained by that finding
-    qlag_cand = []
     for e in errs:
         j, s = script_of(e2e_jobs, e["job"], 0)
-        if j["params"]["kind"] == "switch" and "timing" in json.dumps(j["params"]["cases"]):
-            jj = dict(j)
-            jj["params"] = dict(j["params"], qlag=True)
-            qlag_cand.append(jj)
-    qlag_explained = set()
-    if qlag_cand:
-        outs2 = run_jobs(qlag_cand, wd, "c10_qlag")
-        trace2 = concat_traces(outs2, os.path.join(wd, "c10_qlag.trace.ndjson"))
-        _, errs2 = validate_trace("P_C10", trace2, wd)
-        qlag_explained = set(j["tag"] for j in qlag_cand) - set(e2["job"] for e2 in errs2)
-    qlag_listed = any(f.get("property") == PID and f.get("signature") == SIG_QLAG for f in known_findings().get("findings", []))
-    n_qlag, qlag_examples = 0, []
-    for e in errs:
-        j, s = script_of(e2e_jobs, e["job"], 0)
-        if j["tag"] in qlag_explained and qlag_listed:
-            n_qlag += 1
-            if len(qlag_examples) < 2:
-                qlag_examples.append({"cfg": j["cfg"], "script": s, "monitor": e["err"]})
-            continue
         if j["tag"].startswith("notnested#") and ("performed <<%d>> but the written conditions give <<%d>>" % (
                 cfgdesc.code("2"), cfgdesc.code("1"))) in e["err"]:
             # the known finding end to end: the first case is skipped, the default case fires
@@ -953,13 +931,6 @@ def run(tier, seed):
                            "checks": [{"id": "min", "lo": 0, "hi": 1, "ops": None,
                                        "envs": [{"keys": [cfgdesc.code("c")], "layers": [0], "dl": 0}], "den": [[code_x]]}]}}
         paths.append(write_replay(PID, "%s_%d" % (tier, i), obj))
-    if n_qlag:
-        print("KNOWN-FINDING: property=%s signature=%s  %d end-to-end key-timing evaluations differ from what is written, all "
-              "explained by one defect: the ages of the key / input history do not advance during a tick that performs a "
-              "queued action (Layout::tick returns before tick_hist when the action queue is not empty, "
-              "keyberon/src/layout.rs:1296-1318), so after a switch has fired n actions every older key press looks up to n ms "
-              "younger than it is, e.g. (switch ((key-timing 2 gt 50)) 1 break () 2 fallthrough () 3 break): press, release, "
-              "press again when 2's press is 51 ms old -> 2 3 instead of 1" % (PID, SIG_QLAG, n_qlag))
     if n_known and known_listed:
         print("KNOWN-FINDING: property=%s signature=%s  %d enumerated conditions (+%d end-to-end presses) evaluate "
               "differently from what is written, all explained by one defect: a `not` whose last operand is a nested "
@@ -1001,10 +972,9 @@ def run(tier, seed):
         "e2e": {"configs": len(fam) + len(tfam) + len(term_e2e), "scripts": len(e2e_jobs), "switch_or_fork_presses_judged": n_press,
                 "key_timing_long_gap_rounds": n_long_rounds,
                 "key_timing_long_gap_ages": {"per_threshold": {str(k): v for k, v in sorted(ages_of.items())}, "global": ages_global},
-                "trace_lines": nlines, "rejected": len(errs), "rejected_known": e2e_known + n_qlag},
+                "trace_lines": nlines, "rejected": len(errs), "rejected_known": e2e_known},
         "traces_validated_against_impl": len(e2e_jobs),
-        "known_findings_seen": ([SIG] if n_known else []) + ([SIG_QLAG] if n_qlag else []),
-        "known_hist_age_queued_action": {"rejections_explained": n_qlag, "examples": qlag_examples},
+        "known_findings_seen": [SIG] if n_known else [],
         "known_examples": known,
         "rule": "TLC enumerates every switch condition (top-level list; or/and/not with >=1 operand) up to N nodes over the "
                 "3 leaves of each leaf triple x all 8 truth assignments; every case list (truth x break/fallthrough) up to "
@@ -1030,7 +1000,5 @@ def run(tier, seed):
                                 "through the layout)",
                                 "ages saturate at 65535 ticks (documented); the stepper ticks every millisecond of a silent gap",
                                 "action terms: the order between the actions of a switch and later actions of the same press "
-                                "(fallthrough / multi) is not fixed by the statement (such terms are compared as trees only); a "
-                                "chord in the hold position of a tap-hold is compared as a tree only (tap-hold's timeout action "
-                                "is not part of the compared tree)"])
+                                "(fallthrough / multi) is not fixed by the statement (such terms are compared as trees only)"])
     return rc
